@@ -93,6 +93,11 @@ def program(rng, nstmts=40, names=("a", "b", "x"), fnnames=("b", "f")):
             ok = emit("function u:m(%s)" % x, [E("use", "u", 1), E("keep", "m", 2), E("push", "", 0), E("self", "self", 0), E("decl", x, 3)], 3, "end")
         elif c < 0.90:
             ok = emit("u(self)", [E("use", "u", 1), E("use", "self", 2)], 2)
+        elif c < 0.905:
+            z = rng.choice(names)
+            ok = declared(y) and emit("for %s: %s.T in %s do" % (x, y, z), [E("use", z, 4), E("use", y, 2), E("keep", "T", 3), E("push", "", 0), E("decl", x, 1)], 4, "end")
+        elif c < 0.91:
+            ok = emit("type function T(%s)" % x, [E("keep", "type", 1), E("keep", "T", 2), E("push", "", 0), E("decl", x, 3)], 3, "end")
         elif c < 0.94:
             ok = emit("for %s = %s, %s do" % (x, y, y), [E("use", y, 2), E("use", y, 3), E("push", "", 0), E("decl", x, 1)], 3, "end")
         elif c < 0.96:
